@@ -767,7 +767,7 @@ def ty_term(u):
     return items_term(u["items"])
 
 
-def fdata_term(pd, sk):
+def fdata_term(pd, sk, template="matryer"):
     ifs = []
     for i in pd["ifaces"]:
         tps = coq_list("{| tdecl := %s; torig := %s; tcon := %s; tens := %s |}" % (
@@ -777,7 +777,8 @@ def fdata_term(pd, sk):
         ms = []
         for m in i["methods"]:
             ps = coq_list("{| pn := %s; pexp := %s; pty := %s; pvariadic := %s; pany := %s; pnil := %s |}" % (
-                coq_bytes(p["name"]), coq_bytes(p["exp"]), ty_term(p["u"]), coq_bool(p["variadic"]),
+                # pexp (exported name = matryer record field) is not used by the testify model: its distinctness is no obligation there
+                coq_bytes(p["name"]), coq_bytes(p["exp"] if template == "matryer" else p["name"]), ty_term(p["u"]), coq_bool(p["variadic"]),
                 coq_bool(p["variadic"] and p["ty"] in ("[]interface{}", "[]any")), coq_bool(p["nil"])) for p in m["params"])
             rs = coq_list("{| rn := %s; rty := %s; riserr := %s; rnil := %s |}" % (
                 coq_bytes(r["name"]), ty_term(r["u"]), coq_bool(r["ty"] == "error"), coq_bool(r["nil"])) for r in m["results"])
@@ -798,7 +799,7 @@ def tmpl_term(cfg):
 
 
 def case_term(cfg, res):
-    return "{| c_tmpl := %s; c_data := %s; c_ext := %s |}" % (tmpl_term(cfg), fdata_term(res["probe"], res["skel"]), skel_term(res["skel"]))
+    return "{| c_tmpl := %s; c_data := %s; c_ext := %s |}" % (tmpl_term(cfg), fdata_term(res["probe"], res["skel"], cfg["template"]), skel_term(res["skel"]))
 
 
 def coq_verdict(ctx, term, name):
@@ -808,7 +809,7 @@ def coq_verdict(ctx, term, name):
     for k in ("v_guards", "v_data", "v_names", "v_wf_model", "v_wf_ext"):
         m = re.search(k + r" := (true|false)", flat)
         v[k] = (m.group(1) == "true") if m else None
-    for k in ("v_model_fail", "v_ext_fail", "v_diff"):
+    for k in ("v_model_fail", "v_ext_fail", "v_diff", "v_data_fail"):
         m = re.search(k + r" := \[(.*?)\]", flat)
         v[k] = [int(x.replace("%nat", "")) for x in m.group(1).split(";") if x.strip()] if m else None
     if any(x is None for x in v.values()):
